@@ -57,7 +57,17 @@ def _new_recipe(rng, known_shapes):
         nf, nd = rng.choice(GRID_FLIPS[rng.choice(sorted(GRID_FLIPS))])
     else:
         nf, nd = rng.randint(3, 10), rng.choice([0, 3, 4, 5, 6, 8, 9, 12])
+    extra = {}
+    if rng.random() < 0.12:
+        extra["dir_dtype"] = rng.choice(["int64", "float32"])
+    if rng.random() < 0.08:
+        extra["freq_dtype"] = "float32"
+    if rng.random() < 0.1:
+        extra["site_labels"] = "str"
+    if rng.random() < 0.08:
+        extra["scalar_coord"] = True
     return {
+        **extra,
         "dims": dims, "nf": nf, "nd": nd,
         "freq": {"kind": rng.choice(["log", "log", "lin"]), "f0": rng.choice([0.04, 0.05]), "r": rng.choice([1.1, 1.2, 1.3]), "df": 0.03},
         "dir": {"dir0": rng.choice([0.0, 0.0, 5.0]), "order": rng.choice(["asc", "asc", "asc", "desc", "rot", "shuf"]), "shift": 1, "seed": rng.randrange(100)},
